@@ -738,6 +738,89 @@ def c16_sequence(rec, rng, kind, length, case):
             return
 
 
+def c16_foreign_iterables(rec, rng, kind, case):
+    """Assigned iterables that are neither lists of fresh tracks nor views of the block's own list: ANOTHER block of the
+    same class (a block iterates over its tracks) with the same or another number of frames, the other block's own list
+    object, and lists of *labels* of the current tracks (strings are not tracks).  Own RNG: the main sequences are not
+    shifted by this epilogue."""
+    if kind == "emg":
+        return
+    n = rng.randint(1, 12)
+    cls = type(_blank(kind, n))
+    blk = _blank(kind, n)
+    for _ in range(rng.randint(0, 3)):
+        blk.add_track(_track(rng, kind, n))
+    shadow = list(blk.tracks)
+    steps = []
+
+    def V(key, msg):
+        rec.violation("C16", f"{kind}:{key}", f"[n={n}, {len(shadow)} tracks, {steps}] {msg}", dict(case, steps=list(steps), epilogue=True))
+    for _step in range(rng.randint(2, 5)):
+        r = rng.random()
+        if r < 0.6:
+            same = rng.random() < 0.4
+            m = n if same else max(0, n + rng.choice([-2, -1, 1, 2, 7]))
+            if m == n:
+                same = True
+            other = _blank(kind, m)
+            k = rng.randint(0 if same else 1, 3)
+            for _ in range(k):
+                other.add_track(_track(rng, kind, m))
+            form = rng.choice(["block", "block.tracks", "iter(block)", "tuple(block)"])
+            it = {"block": other, "block.tracks": other.tracks, "iter(block)": iter(other), "tuple(block)": tuple(other)}[form]
+            want = list(other.tracks)
+            steps.append(f"tracks=<{form} of another {cls.__name__} with {m} frames, {k} tracks>")
+            err = None
+            try:
+                blk.tracks = it
+            except Exception as e:
+                err = e
+            cur, oerr = observe_tracks(kind, blk)
+            rec.count("oracle:C16.assignment-from-another-block")
+            if oerr:
+                V("accessors-disagree", oerr); return
+            if same or k == 0:
+                if err is not None:
+                    V("assign:valid-list-refused", f"{form}: {type(err).__name__}: {err}"); return
+                if ident(cur) != ident(want):
+                    V("assign:installed-list-differs", f"{form}: {len(cur)} installed, {len(want)} assigned"); return
+                shadow = list(want)
+                if ident(list(other.tracks)) != ident(want):
+                    V("assign:source-block-changed", f"{form}: the block assigned from lost or gained tracks"); return
+            else:
+                if err is None:
+                    V("assign:invalid-list-accepted", f"{form}: tracks of {m} frames entered a block of {n} frames"); return
+                if ident(cur) != ident(shadow):
+                    V("assign:failed-assignment-changed-tracks", f"{form}: {len(cur)} tracks after, {len(shadow)} before"); return
+        elif shadow:
+            labs = [t.label for t in shadow]
+            lst = list(reversed(labs)) if rng.random() < 0.5 else [rng.choice(labs) for _ in range(rng.randint(1, 3))]
+            steps.append(f"tracks=<list of {len(lst)} labels of current tracks>")
+            err = None
+            try:
+                blk.tracks = lst if rng.random() < 0.7 else tuple(lst)
+            except Exception as e:
+                err = e
+            cur, oerr = observe_tracks(kind, blk)
+            rec.count("oracle:C16.assignment-of-labels-refused")
+            if err is None:
+                V("assign:invalid-list-accepted", "a list of strings (labels of current tracks) was accepted"); return
+            if ident(cur) != ident(shadow):
+                V("assign:failed-assignment-changed-tracks", "labels: tracks changed by the refused assignment"); return
+            try:
+                blk.add_track(lst[0])
+                V("add:not-a-track:accepted", "a label of a current track was accepted by add_track"); return
+            except Exception:
+                pass
+            if ident(list(blk.tracks)) != ident(shadow):
+                V("add:failed-add-changed-tracks", "label: tracks changed by the refused add"); return
+
+
+def _blank(kind, n):
+    c = tdfData3D.Data3D if kind == "data3D" else tdfForce3D.ForceTorque3D
+    return c(100, n, np.ones(3, np.float32), np.eye(3, dtype=np.float32), np.zeros(3, np.float32))
+
+
 def shard_c16(desc, rec):
     rng = random.Random(desc["seed"] * 79 + desc.get("shard", 0))
     for i in range(desc["n"]):
@@ -746,6 +829,7 @@ def shard_c16(desc, rec):
         rec.case(case, True, sample=case if i % 200 == 0 else None)
         rec.count(f"c16:{kind}")
         c16_sequence(rec, rng, kind, rng.randint(4, 18), case)
+        c16_foreign_iterables(rec, random.Random(desc["seed"] * 7919 + desc.get("shard", 0) * 104729 + i), kind, case)
 
 
 # ================================================================================================
